@@ -25,15 +25,18 @@ VARIABLES status,     \* "Stopped","Stopping","Allocating","Verifying","Download
           peers, downloads, files,
           doVerify,
           wantRun,    \* a start command is pending to take effect after the stop completes
+          addr,       \* AddPeer handed over the address of a reachable seed while the torrent runs; not dialled yet
+          parked,     \* the connected peer arrived before the bitfield was known (Allocating/Verifying): what it announced
+                      \* (bitfield / have-all) is parked and has to be replayed when allocation / verification completes
           ncmd
 
-vars == <<status, have, bfKnown, good, stale, filesExist, peers, downloads, files, doVerify, wantRun, ncmd>>
+vars == <<status, have, bfKnown, good, stale, filesExist, peers, downloads, files, doVerify, wantRun, addr, parked, ncmd>>
 Piece == 0 .. (NP - 1)
 Running == status \notin {"Stopped", "Stopping"}
 
 Init ==
     /\ status = "Stopped" /\ have = {} /\ bfKnown = FALSE /\ good = {} /\ stale = FALSE /\ filesExist = "none"
-    /\ peers = 0 /\ downloads = 0 /\ files = 0 /\ doVerify = FALSE /\ wantRun = FALSE /\ ncmd = 0
+    /\ peers = 0 /\ downloads = 0 /\ files = 0 /\ doVerify = FALSE /\ wantRun = FALSE /\ addr = FALSE /\ parked = FALSE /\ ncmd = 0
 
 Cmd == ncmd < MaxCmds /\ ncmd' = ncmd + 1
 
@@ -43,22 +46,29 @@ CmdStart ==
     /\ CASE status = "Stopped"  -> /\ status' = "Allocating" /\ UNCHANGED wantRun
          [] status = "Stopping" -> /\ wantRun' = TRUE /\ UNCHANGED status      \* takes effect when the stop completes
          [] OTHER               -> UNCHANGED <<status, wantRun>>
-    /\ UNCHANGED <<have, bfKnown, good, stale, filesExist, peers, downloads, files, doVerify>>
+    /\ UNCHANGED <<have, bfKnown, good, stale, filesExist, peers, downloads, files, doVerify, addr, parked>>
 
-DoStop ==   \* stop(): peers, downloads, data files closed; stop announce in flight
-    /\ status' = "Stopping" /\ peers' = 0 /\ downloads' = 0 /\ files' = 0
+DoStop ==   \* stop(): peers, downloads, data files closed, undialled addresses dropped; stop announce in flight
+    /\ status' = "Stopping" /\ peers' = 0 /\ downloads' = 0 /\ files' = 0 /\ addr' = FALSE /\ parked' = FALSE
+NoStop == UNCHANGED <<status, peers, downloads, files, addr, parked>>
+
+\* @obligation C04.L5.addpeer  an address added while the torrent runs (also while Allocating / Verifying) is dialled; the command
+\* is refused only while Stopped / Stopping.  It must not be lost: see PeerConnect / InvParked / Converges.
+CmdAddPeer ==
+    /\ Cmd /\ addr' = (addr \/ Running)
+    /\ UNCHANGED <<status, have, bfKnown, good, stale, filesExist, peers, downloads, files, doVerify, wantRun, parked>>
 
 CmdStop ==
     /\ Cmd
-    /\ IF Running THEN DoStop ELSE UNCHANGED <<status, peers, downloads, files>>
+    /\ IF Running THEN DoStop ELSE NoStop
     /\ wantRun' = FALSE
     /\ UNCHANGED <<have, bfKnown, good, stale, filesExist, doVerify>>
 
 CmdVerify ==
     /\ Cmd /\ doVerify' = TRUE /\ wantRun' = FALSE
     /\ IF status = "Stopped"
-       THEN /\ status' = "Allocating" /\ bfKnown' = FALSE /\ have' = {} /\ UNCHANGED <<peers, downloads, files>>
-       ELSE /\ IF Running THEN DoStop ELSE UNCHANGED <<status, peers, downloads, files>>
+       THEN /\ status' = "Allocating" /\ bfKnown' = FALSE /\ have' = {} /\ UNCHANGED <<peers, downloads, files, addr, parked>>
+       ELSE /\ IF Running THEN DoStop ELSE NoStop
             /\ UNCHANGED <<bfKnown, have>>
     /\ UNCHANGED <<good, stale, filesExist>>
 
@@ -70,7 +80,7 @@ StopAnnounced ==
        ELSE IF wantRun
             THEN /\ status' = "Allocating" /\ wantRun' = FALSE /\ UNCHANGED <<bfKnown, have>>
             ELSE /\ status' = "Stopped" /\ UNCHANGED <<bfKnown, have, wantRun>>
-    /\ UNCHANGED <<good, stale, filesExist, peers, downloads, files, doVerify, ncmd>>
+    /\ UNCHANGED <<good, stale, filesExist, peers, downloads, files, doVerify, addr, parked, ncmd>>
 
 AllocDone ==  \* files opened / created; decide: trust resume bits, start empty, or verify
     /\ status = "Allocating"
@@ -78,33 +88,41 @@ AllocDone ==  \* files opened / created; decide: trust resume bits, start empty,
     /\ IF doVerify
        THEN IF filesExist = "none"
             THEN /\ status' = "Stopping" /\ have' = {} /\ bfKnown' = TRUE /\ doVerify' = FALSE   \* nothing to verify: done, stop
-                 /\ files' = 0
-            ELSE /\ status' = "Verifying" /\ files' = 1 /\ UNCHANGED <<have, bfKnown, doVerify>>
-       ELSE /\ UNCHANGED doVerify /\ files' = 1
+                 /\ files' = 0 /\ peers' = 0 /\ addr' = FALSE /\ parked' = FALSE
+            ELSE /\ status' = "Verifying" /\ files' = 1 /\ UNCHANGED <<have, bfKnown, doVerify, peers, addr, parked>>
+       ELSE /\ UNCHANGED <<doVerify, peers, addr>> /\ files' = 1
             /\ IF bfKnown /\ filesExist = "all"
                THEN /\ status' = (IF have = Piece THEN "Seeding" ELSE "Downloading") /\ UNCHANGED <<have, bfKnown>>
+                    /\ parked' = FALSE                                                  \* bitfield known: parked announcements replayed
                ELSE IF filesExist = "none"
-                    THEN /\ status' = "Downloading" /\ have' = {} /\ bfKnown' = TRUE
+                    THEN /\ status' = "Downloading" /\ have' = {} /\ bfKnown' = TRUE /\ parked' = FALSE
                     ELSE /\ status' = "Verifying" /\ have' = {} /\ bfKnown' = FALSE   \* files were missing: the resume bitfield is dropped before the re-check (7d677fc)
+                         /\ UNCHANGED parked
     /\ good' = (IF filesExist = "none" THEN {} ELSE good)
-    /\ UNCHANGED <<stale, peers, downloads, wantRun, ncmd>>
+    /\ UNCHANGED <<stale, downloads, wantRun, ncmd>>
 
 VerifyDone ==
     /\ status = "Verifying"
     /\ have' = good /\ bfKnown' = TRUE /\ stale' = FALSE
     /\ IF doVerify
-       THEN /\ doVerify' = FALSE /\ status' = "Stopping" /\ files' = 0 /\ peers' = 0 /\ downloads' = 0
-       ELSE /\ status' = (IF good = Piece THEN "Seeding" ELSE "Downloading") /\ UNCHANGED <<doVerify, files, peers, downloads>>
+       THEN /\ doVerify' = FALSE /\ status' = "Stopping" /\ files' = 0 /\ peers' = 0 /\ downloads' = 0 /\ addr' = FALSE /\ parked' = FALSE
+       ELSE /\ status' = (IF good = Piece THEN "Seeding" ELSE "Downloading") /\ UNCHANGED <<doVerify, files, peers, downloads, addr>>
+            /\ parked' = FALSE                                                         \* parked announcements replayed
     /\ UNCHANGED <<good, filesExist, wantRun, ncmd>>
 
-PeerConnect == status \in {"Downloading", "Seeding"} /\ peers = 0 /\ peers' = 1
-               /\ UNCHANGED <<status, have, bfKnown, good, stale, filesExist, downloads, files, doVerify, wantRun, ncmd>>
+\* the environment's honest seed reaches a running torrent (incoming connection) once the bitfield is known; an address handed
+\* over by AddPeer is dialled at once, in Allocating / Verifying too: that peer's announcements are parked
+PeerConnect ==
+    /\ peers = 0 /\ peers' = 1
+    /\ \/ status \in {"Downloading", "Seeding"} /\ parked' = FALSE /\ addr' = FALSE
+       \/ status \in {"Allocating", "Verifying"} /\ addr /\ parked' = TRUE /\ addr' = FALSE
+    /\ UNCHANGED <<status, have, bfKnown, good, stale, filesExist, downloads, files, doVerify, wantRun, ncmd>>
 
-Progress(p) ==  \* an honest seed delivers piece p; it is verified and written
-    /\ status = "Downloading" /\ peers = 1 /\ p \notin have
+Progress(p) ==  \* an honest seed delivers piece p; it is verified and written (needs the peer's announcements: not while parked)
+    /\ status = "Downloading" /\ peers = 1 /\ ~parked /\ p \notin have
     /\ have' = have \cup {p} /\ good' = good \cup {p}
     /\ status' = (IF have' = Piece THEN "Seeding" ELSE "Downloading")
-    /\ UNCHANGED <<bfKnown, stale, filesExist, peers, downloads, files, doVerify, wantRun, ncmd>>
+    /\ UNCHANGED <<bfKnown, stale, filesExist, peers, downloads, files, doVerify, wantRun, addr, parked, ncmd>>
 
 \* --- environment: files changed while stopped -------------------------------
 Mutate(kind) ==
@@ -112,10 +130,10 @@ Mutate(kind) ==
     /\ CASE kind = "corrupt"    -> /\ good # {} /\ good' = good \ {CHOOSE p \in good : TRUE} /\ stale' = TRUE /\ UNCHANGED filesExist
          [] kind = "deletesome" -> /\ good' = {} /\ filesExist' = "some" /\ UNCHANGED stale
          [] kind = "deleteall"  -> /\ good' = {} /\ filesExist' = "none" /\ UNCHANGED stale
-    /\ UNCHANGED <<status, have, bfKnown, peers, downloads, files, doVerify, wantRun>>
+    /\ UNCHANGED <<status, have, bfKnown, peers, downloads, files, doVerify, wantRun, addr, parked>>
 
 Next ==
-    \/ CmdStart \/ CmdStop \/ CmdVerify \/ StopAnnounced \/ AllocDone \/ VerifyDone \/ PeerConnect
+    \/ CmdStart \/ CmdStop \/ CmdVerify \/ CmdAddPeer \/ StopAnnounced \/ AllocDone \/ VerifyDone \/ PeerConnect
     \/ \E p \in Piece : Progress(p)
     \/ \E k \in {"corrupt", "deletesome", "deleteall"} : Mutate(k)
 
@@ -130,11 +148,15 @@ L2b(st, hv, gd, stl) == (st \in {"Downloading", "Seeding"} /\ ~stl) => hv \subse
 \* @obligation C04.L3  Stopped means no peers, no downloads, no open data files
 L3(st, pe, dl, fl) == st = "Stopped" => (pe = 0 /\ dl = 0 /\ fl = 0)
 
-Inv == L2a(Piece, status, have) /\ L2b(status, have, good, stale) /\ L3(status, peers, downloads, files)
+\* @obligation C04.L5.addpeer  what an early peer announced does not stay parked once the bitfield is known (the AddPeer is not lost)
+InvParked == (parked => (peers = 1 /\ status \in {"Allocating", "Verifying"})) /\ (addr => Running)
+
+Inv == L2a(Piece, status, have) /\ L2b(status, have, good, stale) /\ L3(status, peers, downloads, files) /\ InvParked
 
 \* @obligation C04.L5  a stop is followed by Stopped; a verification request ends with the torrent stopped
 StopLeadsToStopped == [](status = "Stopping" /\ ~doVerify /\ ~wantRun /\ ncmd = MaxCmds => <>(status = "Stopped"))
 VerifyEnds == [](doVerify /\ ~wantRun /\ ncmd = MaxCmds => <>(status = "Stopped" /\ ~doVerify /\ have = good))
 \* @obligation C04.L6  starting again with a reachable seed converges to complete, correct files
+\* (with an early peer connected, peers = 1 keeps the environment's seed away: convergence then depends on the replay)
 Converges == [](Running /\ ~doVerify /\ ~stale /\ ncmd = MaxCmds => <>(status = "Seeding" /\ good = Piece))
 =============================================================================
